@@ -609,9 +609,16 @@ pub(crate) fn add(ctx: &mut TulispContext) {
                 }
             }
         }
+        // The result form sees the loop variable bound to nil.
+        let result = match loop_res {
+            Ok(()) => {
+                var.set_unchecked(TulispObject::nil());
+                ctx.eval(&result)
+            }
+            Err(e) => Err(e),
+        };
         var.unset()?;
-        loop_res?;
-        ctx.eval(&result)
+        result
     }
     intern_set_func!(ctx, dolist);
 
@@ -628,9 +635,16 @@ pub(crate) fn add(ctx: &mut TulispContext) {
                 break;
             }
         }
+        // The result form sees the loop variable bound to the count.
+        let result = match loop_res {
+            Ok(()) => {
+                var.set_unchecked(TulispObject::from(count));
+                ctx.eval(&result)
+            }
+            Err(e) => Err(e),
+        };
         var.unset()?;
-        loop_res?;
-        ctx.eval(&result)
+        result
     }
     intern_set_func!(ctx, dotimes);
 
